@@ -30,7 +30,7 @@ def showCache (g : Nat) (c : PCache Nat Nat) : String :=
   "|" ++ String.join (ks.map (fun k => " " ++ toString k)) ++ " | " ++ toString c.hits ++ " " ++ toString c.misses
 
 /-- `cache new <max|->` creates a cache and prints its index;
-`cache <id> get k | set k v | del k | len`, `cache clear`, `cache bump` -/
+`cache <id> get k | set k v | del k | req k v | show`, `cache copy <id>`, `cache clear`, `cache bump` -/
 def handleCache (toks : List String) (x : XState) : Option (String × XState) :=
   match toks with
   | ["new", mx] =>
@@ -38,6 +38,11 @@ def handleCache (toks : List String) (x : XState) : Option (String × XState) :=
     some (toString x.caches.size, { x with caches := x.caches.push (PCache.new m x.gen) })
   | ["clear"] => some ("done", { x with caches := x.caches.map PCache.clear })
   | ["bump"] => some ("done", { x with gen := x.gen + 1 })
+  | ["copy", id] =>
+    -- `copy.deepcopy(cache)`: a new live cache with the same limit, entries, recency order and counters
+    match x.caches[id.toNat!]? with
+    | none => some ("bad-cache", x)
+    | some c => some (toString x.caches.size, { x with caches := x.caches.push c })
   | id :: rest =>
     let i := id.toNat!
     match x.caches[i]? with
@@ -51,6 +56,12 @@ def handleCache (toks : List String) (x : XState) : Option (String × XState) :=
       | ["set", k, v] =>
         let c := PCache.set x.gen c k.toNat! v.toNat!
         some ("done " ++ showCache x.gen c, { x with caches := x.caches.set! i c })
+      | ["req", k, v] =>
+        -- what `Repetition.lparse` does with its cache: one lookup, and a store after a miss
+        let (o, c) := PCache.get x.gen c k.toNat!
+        let c := match o with | some _ => c | none => PCache.set x.gen c k.toNat! v.toNat!
+        let out := match o with | some _ => "hit" | none => "miss"
+        some (out ++ " " ++ showCache x.gen c, { x with caches := x.caches.set! i c })
       | ["del", k] =>
         match PCache.del x.gen c k.toNat! with
         | some c => some ("done " ++ showCache x.gen c, { x with caches := x.caches.set! i c })
